@@ -66,6 +66,103 @@ def _run_variant(args):
         shutil.rmtree(tmp, ignore_errors=True)
 
 
+def load_patch_corpus(props=None):
+    """independent changes filed under /verif/seeded (must fire, unless recorded as not caught) and /verif/benign
+    (behaviour-preserving refactorings: every check must stay silent)."""
+    out = []
+    for kind, root in (("fault", os.path.join(VERIF, "seeded")), ("rewrite", os.path.join(VERIF, "benign"))):
+        if not os.path.isdir(root):
+            continue
+        for d in sorted(os.listdir(root)):
+            pf, mf = os.path.join(root, d, "patch.diff"), os.path.join(root, d, "meta.json")
+            if not (os.path.exists(pf) and os.path.exists(mf)):
+                continue
+            m = json.load(open(mf))
+            own = [m["property"]] if isinstance(m.get("property"), str) else list(m.get("properties") or [])
+            own = [p[:3] for p in own]
+            if kind == "fault":
+                if m.get("not_caught"):
+                    continue
+                targets = m.get("caught_by") or own
+            else:
+                targets = list(ALL_PROPS)
+            if props is not None:
+                if not (set(own) & set(props)) and not (kind == "fault" and set(targets) & set(props)):
+                    continue
+                targets = [t for t in targets if t in props] if kind == "rewrite" else targets
+            out.append(dict(id=f"{'seeded' if kind == 'fault' else 'benign'}/{d}", kind=kind, patch=pf, props=targets,
+                            any_of=(kind == "fault")))
+    return out
+
+
+ALL_PROPS = [f"C{i:02d}" for i in range(1, 21) if i != 7]
+
+
+def _run_patch(args):
+    v, repo, base_keys = args
+    tmp = tempfile.mkdtemp(prefix="cxa_sp_")
+    try:
+        shutil.copytree(os.path.join(repo, "coxeter"), os.path.join(tmp, "coxeter"), ignore=shutil.ignore_patterns("__pycache__"))
+        import subprocess
+        r = subprocess.run(["patch", "-p1", "-s", "-d", tmp, "-i", v["patch"]], capture_output=True, text=True)
+        if r.returncode != 0:
+            r = subprocess.run(["git", "apply", "--directory", tmp, "--unsafe-paths", v["patch"]], capture_output=True, text=True, cwd="/")
+            if r.returncode != 0:
+                return (v["id"], "stale", "patch does not apply to the current tree")
+        out = []
+        for prop in v["props"]:
+            mod = importlib.import_module(f"cxa.props.{prop.lower()}")
+            try:
+                res = mod.run(Index(tmp), tier="quick", seed=0)
+                newk = {f"{f.rule}|{f.key}" for f in res.findings} - base_keys[prop]
+                out.append((prop, "fired" if newk else "silent", sorted(newk)[:2]))
+            except AnalysisError as e:
+                out.append((prop, "analysis-error", [str(e)[:80]]))
+        return (v["id"], "ran", out)
+    finally:
+        shutil.rmtree(tmp, ignore_errors=True)
+
+
+def run_patch_corpus(props, repo, known, verbose=True):
+    corpus = load_patch_corpus(props)
+    if not corpus:
+        return True, {}
+    need = sorted({p for v in corpus for p in v["props"]})
+    base = {p: _baseline_keys(p, repo) | known for p in need}
+    summary = {"seeded_fired": 0, "seeded_missed": 0, "benign_silent": 0, "benign_alarm": 0, "stale_patches": 0}
+    ok = True
+    with ProcessPoolExecutor(max_workers=16) as ex:
+        results = list(ex.map(_run_patch, [(v, repo, base) for v in corpus]))
+    byid = {v["id"]: v for v in corpus}
+    for vid, st, out in results:
+        v = byid[vid]
+        if st == "stale":
+            # the tree moved on (e.g. the defect a change relied on was repaired): reported, not fatal
+            summary["stale_patches"] += 1
+            print(f"SELFTEST note: {vid}: {out}")
+            continue
+        if v["kind"] == "fault":
+            if any(s_ == "fired" for (_p, s_, _k) in out):
+                summary["seeded_fired"] += 1
+                if verbose:
+                    print(f"  ok   seeded  {vid} -> {[p for (p, s_, _k) in out if s_ == 'fired']}")
+            else:
+                summary["seeded_missed"] += 1
+                ok = False
+                print(f"SELFTEST missed independent change {vid}: {out}")
+        else:
+            alarms = [(p_, k_) for (p_, s_, k_) in out if s_ != "silent"]
+            if alarms:
+                summary["benign_alarm"] += 1
+                ok = False
+                print(f"SELFTEST false alarm on behaviour-preserving change {vid}: {alarms[:3]}")
+            else:
+                summary["benign_silent"] += 1
+                if verbose:
+                    print(f"  ok   benign  {vid} silent on {len(out)} properties")
+    return ok, summary
+
+
 def _probe(args):
     """whole-tree behaviour-preserving transformation: findings must not grow, rule instance counts must not shrink."""
     prop, repo, tmp = args
@@ -158,6 +255,9 @@ def run_selftest(props=None, seed=0, repo=None, verbose=True):
     probe_ok = run_probes(need, repo)
     summary["alpha_probe"] = "ok" if probe_ok else "failed"
     ok = ok and probe_ok
+    corpus_ok, csum = run_patch_corpus(props, repo, known, verbose=verbose)
+    summary.update(csum)
+    ok = ok and corpus_ok
     print(f"selftest: {summary} in {time.time() - t0:.1f}s")
     run_selftest.last_summary = dict(summary, variants=len(variants), wall_s=round(time.time() - t0, 1))
     return ok
